@@ -165,7 +165,25 @@ func runC23(c *eng.Ctx) {
 			c.Ob("ORDER-match", eng.FuncName(m)+" matches-the-path", okPath, walk[0].Pos(), "rules are matched against the requested path")
 		}
 	}
-	c.Expect("ORDER-match", 4)
+	if m := c.NeedFunc("weed/filer", "(*FilerConf).MatchStorageRule"); m != nil {
+		// every answer is the freshly built accumulator (never a stored rule object, which would both skip the
+		// inherited fields and hand out shared state), and every answer was built by the prefix walk
+		fresh := true
+		for _, r := range eng.Find(m, eng.IsReturn) {
+			if r.Block() == m.Recover {
+				continue
+			}
+			for _, v := range eng.Resolve(r.(*ssa.Return).Results[0]) {
+				al, isAlloc := v.(*ssa.Alloc)
+				if !isAlloc || !al.Heap || !strings.HasSuffix(eng.TypeName(eng.Deref(al.Type())), "FilerConf_PathConf") {
+					fresh = false
+				}
+			}
+		}
+		c.Ob("ORDER-match", eng.FuncName(m)+" answers-fresh-accumulator", fresh, m.Pos(), "the answer is always the accumulator built for this lookup, never a stored rule")
+		c.Before("ORDER-match", "walk-before-answer", m, eng.PlainCallTo("ptrie.Trie).MatchPrefix"), eng.Find(m, eng.IsReturn), "every answer is produced by the walk over all matching prefixes")
+	}
+	c.Expect("ORDER-match", 6)
 
 	// ---------------------------------------------------------------- (3) GUARD-delete
 	if d := c.NeedFunc("weed/filer", "(*FilerConf).DeleteLocationConf"); d != nil {
@@ -215,7 +233,31 @@ func runC23(c *eng.Ctx) {
 				}
 				c.Ob("GUARD-delete", eng.FuncName(d)+" keeps-all-others", okKeep, cb.Pos(), "every rule with a different key is re-inserted")
 				call := puts[0].(*ssa.Call)
-				c.Ob("GUARD-delete", eng.FuncName(d)+" re-inserts-unchanged", eng.IsParamLike(eng.Arg(call, 0), "key") && eng.IsParamLike(eng.Arg(call, 1), "value"), call.Pos(), "kept rules are re-inserted under their own key with their own value")
+				// the key re-inserted is a private copy of the walk's key: the walk builds sibling keys in shared memory and
+				// the trie retains the slice it is given
+				keyArg := eng.Arg(call, 0)
+				copied := false
+				switch x := eng.Unwrap(keyArg).(type) {
+				case *ssa.Call:
+					if eng.CalleeIs(x, "builtin.append") && len(x.Call.Args) == 2 && eng.IsParamLike(x.Call.Args[1], "key") && !eng.IsParamLike(x.Call.Args[0], "key") {
+						if eng.IsNilConst(x.Call.Args[0]) {
+							copied = true
+						} else if sl, isSl := x.Call.Args[0].(*ssa.Slice); isSl && !eng.Mentions(sl.X, 3, func(v ssa.Value) bool { return eng.IsParamLike(v, "key") }) {
+							copied = true
+						}
+					}
+					if eng.CalleeIs(x, "bytes.Clone") && eng.IsParamLike(x.Call.Args[0], "key") {
+						copied = true
+					}
+				case *ssa.Convert:
+					// []byte(string(key)) or []byte(rule.LocationPrefix)
+					if bt, isB := x.X.Type().Underlying().(*types.Basic); isB && bt.Kind() == types.String {
+						copied = true
+					}
+				}
+				c.Ob("GUARD-delete", eng.FuncName(d)+" re-inserts-unchanged", copied && eng.Mentions(keyArg, 4, func(v ssa.Value) bool {
+					return eng.IsParamLike(v, "key") || eng.IsField(v, "FilerConf_PathConf.LocationPrefix")
+				}) && eng.IsParamLike(eng.Arg(call, 1), "value"), call.Pos(), "kept rules are re-inserted under a private copy of their own key with their own value (the walk reuses the key's memory for the next rule)")
 			}
 			allTrue := true
 			for _, r := range eng.Find(cb, eng.IsReturn) {
